@@ -1,5 +1,6 @@
 """Engine B analysis library over mirfacts JSON: CFG, dominators, reachability, call graph,
 lock regions, `?`-success edges, value-origin slicing.  Python stdlib only."""
+import os
 import re
 from collections import defaultdict, deque
 
@@ -198,19 +199,66 @@ class Crate:
         for b in self.bodies:
             self.by_path[b.path].append(b)
         self.impls = raw["impls"]
+        self._inl = {}
 
-    def body(self, path):
-        """unique body whose def path equals `path` (or ends with ::path)"""
+    def body(self, path, inline=False):
+        """unique body whose def path equals `path` (or ends with ::path); `inline=True`: with the crate-local
+        helpers it calls spliced in (see inline_raw)"""
         c = self.by_path.get(path)
+        b = None
         if c:
-            return c[0]
-        cand = [b for b in self.bodies if b.path.endswith("::" + path) or b.path == path]
-        if len(cand) == 1:
-            return cand[0]
-        return None
+            b = c[0]
+        else:
+            cand = [b for b in self.bodies if b.path.endswith("::" + path) or b.path == path]
+            if len(cand) == 1:
+                b = cand[0]
+        if b is None or not inline or os.environ.get("VERIF_NO_INLINE"):
+            return b
+        return self.inlined(b)
 
     def find(self, regex):
         return [b for b in self.bodies if re.search(regex, b.path)]
+
+    def ibody(self, path):
+        return self.body(path, inline=True)
+
+    def inlined(self, path, depth=3, no_impls_of=("TS",)):
+        """the body at `path` with crate-local helper calls spliced in (see inline_raw); None if there is no such body"""
+        b = path if isinstance(path, Body) else self.body(path)
+        if b is None:
+            return None
+        key = (b.path, depth, tuple(no_impls_of))
+        if key not in self._inl:
+            nb = Body(inline_raw(self, b, depth, no_impls_of), self.name)
+            nb.plain = b
+            self._inl[key] = nb
+        return self._inl[key]
+
+    def owned_by(self, owner, no_impls_of=("TS",)):
+        """paths of bodies that only run as part of `owner`: owner itself, its closures, and every function all of whose
+        call sites in the crate lie in such bodies (helpers the owner was split into)"""
+        callers = defaultdict(set)
+        for p, qs in self.callgraph(no_impls_of).items():
+            for q in qs:
+                callers[q].add(p)
+        own = {owner} if isinstance(owner, str) else set(owner)
+        changed = True
+        while changed:
+            changed = False
+            for b in self.bodies:
+                p = b.path
+                if p in own:
+                    continue
+                base = re.sub(r"::\{closure#\d+\}.*$", "", p)
+                if base != p and base in own:
+                    own.add(p)
+                    changed = True
+                    continue
+                cs = callers.get(p)
+                if cs and all(c in own for c in cs) and b.raw.get("vis", "") != "pub" and not b.raw.get("impl_trait"):
+                    own.add(p)
+                    changed = True
+        return own
 
     # ---- call graph
     def call_targets(self, body, t, no_impls_of=()):
@@ -305,6 +353,90 @@ class Crate:
         return seen, parent
 
 
+# ------------------------------------------------------------------ inlining
+
+def _shift_place(pl, loff):
+    return {"l": pl["l"] + loff, "p": [re.sub(r"^\[_(\d+)\]$", lambda m: "[_%d]" % (int(m.group(1)) + loff), x) if isinstance(x, str) else x for x in pl["p"]]}
+
+
+def _shift(x, loff, boff):
+    """deep copy of a MIR JSON fragment with locals and block numbers shifted"""
+    if isinstance(x, list):
+        return [_shift(y, loff, boff) for y in x]
+    if not isinstance(x, dict):
+        return x
+    if set(x.keys()) == {"l", "p"}:
+        return _shift_place(x, loff)
+    out = {}
+    for k, v in x.items():
+        if k in ("target", "unwind", "otherwise") and isinstance(v, int) and not isinstance(v, bool):
+            out[k] = v + boff
+        elif k == "targets" and isinstance(v, list):
+            out[k] = [[a, b + boff] for a, b in v]
+        else:
+            out[k] = _shift(v, loff, boff)
+    return out
+
+
+def inline_raw(crate, body, depth=3, no_impls_of=("TS",), stack=(), budget=6000, memo=None):
+    """raw JSON of `body` with the bodies of crate-local, statically resolved, non-recursive callees spliced in
+    (helpers a function was split into are part of what the function does).  The call terminator stays in place as a
+    marker whose return edge enters the callee; the callee's `return` assigns the call's destination and continues at the
+    call's original target.  Parameters become ordinary locals assigned from the call's arguments."""
+    memo = {} if memo is None else memo
+    raw = body.raw
+    new = dict(raw)
+    blocks = [_shift(b, 0, 0) for b in raw["blocks"]]
+    locals_ = list(raw["locals"])
+    inlined = []
+    if depth > 0:
+        for bi in range(len(raw["blocks"])):
+            t = blocks[bi]["term"]
+            if t["k"] != "call" or blocks[bi]["cleanup"] or t.get("target") is None:
+                continue
+            f = t.get("fn") or {}
+            if f.get("trait") and (f.get("res") in (None, f.get("path"))):
+                continue  # dynamic / unresolved dispatch
+            tg = crate.call_targets(body, t, no_impls_of)
+            if len(tg) != 1:
+                continue
+            cb = tg[0]
+            if cb.kind not in ("Fn", "AssocFn") or cb.path in stack or cb.path == body.path:
+                continue
+            if cb.raw["arg_count"] != len(t["args"]):
+                continue
+            key = (cb.path, depth - 1)
+            if key not in memo:
+                memo[key] = inline_raw(crate, cb, depth - 1, no_impls_of, stack + (body.path,), budget, memo)
+            craw = memo[key]
+            if len(blocks) + len(craw["blocks"]) > budget:
+                continue
+            loff, boff = len(locals_), len(blocks)
+            locals_.extend(dict(l, inl=cb.path) for l in craw["locals"])
+            ret_to = t["target"]
+            for i, a in enumerate(t["args"]):
+                blocks[bi]["stmts"].append({"k": "assign", "dst": {"l": loff + 1 + i, "p": []}, "rv": {"k": "use", "op": a}, "inl_arg": True})
+            for cblk in craw["blocks"]:
+                nb = _shift(cblk, loff, boff)
+                nb["inl"] = cb.path
+                nb["inl_site"] = bi
+                if nb["term"]["k"] == "return":
+                    nb["stmts"].append({"k": "assign", "dst": t["dst"], "rv": {"k": "use", "op": {"k": "move", "pl": {"l": loff, "p": []}}}, "inl_ret": True})
+                    nb["term"] = {"k": "goto", "target": ret_to, "span": nb["term"].get("span"), "inl_return": cb.path}
+                elif nb["term"]["k"] == "resume" and t.get("unwind") is not None:
+                    nb["term"] = {"k": "goto", "target": t["unwind"]}
+                blocks.append(nb)
+            t["target"] = boff
+            t["inl_ret_to"] = ret_to
+            t["inlined"] = cb.path
+            inlined.append({"callee": cb.path, "site": bi, "first_block": boff, "blocks": len(craw["blocks"]), "first_local": loff,
+                            "nested": craw.get("inlined", [])})
+    new["blocks"] = blocks
+    new["locals"] = locals_
+    new["inlined"] = inlined
+    return new
+
+
 def _trait_eq(a, b):
     """compare trait paths ignoring generic args and leading crate qualifiers"""
     def norm(x):
@@ -337,6 +469,55 @@ def try_edges(body):
         arg = op_local(t["args"][0]) if t["args"] else None
         out.append({"call_block": b, "arg": arg, "cont": cont, "brk": brk, "switch_block": tgt, "dst": t["dst"]["l"]})
     return out
+
+
+def success_conts(crate, body, rx, pred=None, depth=3, _stack=()):
+    """Blocks of `body` that are entered only after a call matching `rx` (and `pred(body, t)`) has returned Ok: the
+    continue-edges of `?` applied to such a call - or to a call of a crate-local function that itself returns Ok only
+    after such a call (helpers are summarised, not pattern-matched: see ok_only_after)."""
+    out = []
+    for e in try_edges(body):
+        if e["arg"] is None or e["cont"] is None:
+            continue
+        for o in origins(body, e["arg"], through_try=False):
+            if o["kind"] != "call":
+                continue
+            t = o["t"]
+            if fn_matches(t, *([rx] if isinstance(rx, str) else rx)) and (pred is None or pred(body, t)):
+                out.append(e["cont"])
+            elif depth > 0:
+                for cb in crate.call_targets(body.plain if hasattr(body, "plain") else body, t, ("TS",)):
+                    if cb.path in _stack or cb.kind not in ("Fn", "AssocFn"):
+                        continue
+                    if ok_only_after(crate, cb, rx, pred, depth - 1, _stack + (body.path,)):
+                        out.append(e["cont"])
+    return out
+
+
+def error_blocks(body):
+    """blocks that put an error into the return place: `?` propagation (FromResidual::from_residual) or `_0 = Err(..)`"""
+    out = set()
+    for b in range(body.n):
+        if body.is_cleanup(b):
+            continue
+        t = body.term(b)
+        if t["k"] == "call" and fn_matches(t, r"FromResidual.*::from_residual$") and t["dst"]["l"] == 0:
+            out.add(b)
+        for st in body.stmts(b):
+            if st["k"] == "assign" and st["dst"]["l"] == 0 and not st["dst"]["p"] and st["rv"]["k"] == "agg" and st["rv"].get("variant") == "Err":
+                out.add(b)
+    return out
+
+
+def ok_only_after(crate, g, rx, pred=None, depth=2, _stack=()):
+    """True iff every path through `g` that does not end in error propagation (`?` break edge, i.e. a
+    FromResidual::from_residual call) passes a success continuation of a call matching rx."""
+    g = g.plain if hasattr(g, "plain") else g
+    conts = success_conts(crate, g, rx, pred, depth, _stack)
+    if not conts:
+        return False
+    through = set(conts) | error_blocks(g)
+    return g.all_paths_pass(0, through, g.returns())
 
 
 def def_sites(body, local):
@@ -432,6 +613,272 @@ def origins(body, local, max_steps=4000, identity=IDENTITY_CALLS, through_try=Tr
                 else:
                     out.append({"kind": "other", "rv": rv, "block": b})
     return out
+
+
+def deep_slice(body, local, max_steps=6000):
+    """Every call whose result can flow into `local` (transitive backward data dependence: through moves, borrows,
+    field projections, aggregates - closure captures included - and *all* arguments of every call on the way).
+    Returns (calls, params, consts): the call terminators, the parameter locals and the constants reached."""
+    seen, work = set(), [local]
+    calls, params, consts = [], set(), []
+    steps = 0
+    while work and steps < max_steps:
+        l = work.pop()
+        steps += 1
+        if l is None or l in seen:
+            continue
+        seen.add(l)
+        if 1 <= l <= body.raw["arg_count"]:
+            params.add(l)
+        for b, i, d in def_sites(body, l):
+            if body.is_cleanup(b):
+                continue
+            if i == "term":
+                calls.append((b, d))
+                for a in d["args"]:
+                    pl = op_place(a)
+                    if pl is not None:
+                        work.append(pl["l"])
+                    elif op_const(a) is not None:
+                        consts.append(op_const(a))
+            else:
+                rv = d["rv"]
+                k = rv["k"]
+                ops = []
+                if k in ("use", "cast", "repeat"):
+                    ops = [rv["op"]]
+                elif k in ("ref", "rawptr", "discr"):
+                    work.append(rv["pl"]["l"])
+                elif k == "agg":
+                    ops = rv["ops"]
+                elif k == "binop":
+                    ops = [rv["a"], rv["b"]]
+                elif k == "unop":
+                    ops = [rv["a"]]
+                for o in ops:
+                    pl = op_place(o)
+                    if pl is not None:
+                        work.append(pl["l"])
+                    elif op_const(o) is not None:
+                        consts.append(op_const(o))
+        # writes through a reference to l (`*l = ..`, `(*l).f = ..`) and calls that receive `&mut l` are not followed:
+        # the slice is a may-depend-on set used for "does X take part at all", not for absence proofs
+    return calls, params, consts
+
+
+def flag_polarity(body, discr_local, steps=20):
+    """(call, positive): the call that produced a boolean, looking through copies and `!`; positive is False when an odd
+    number of negations (or a `ne`) lies between the call and the switch"""
+    cur, pos = discr_local, True
+    for _ in range(steps):
+        ds = [d for d in def_sites(body, cur) if not body.is_cleanup(d[0])]
+        if len(ds) != 1:
+            return None, pos
+        b, i, d = ds[0]
+        if i == "term":
+            if fn_matches(d, r"PartialEq.*::ne$", r"cmp::PartialEq::ne$"):
+                pos = not pos
+            return d, pos
+        rv = d["rv"]
+        if rv["k"] == "unop" and rv["op"] == "Not":
+            pos = not pos
+            nxt = op_place(rv["a"])
+        elif rv["k"] in ("use", "cast"):
+            nxt = op_place(rv["op"])
+        else:
+            return None, pos
+        if nxt is None:
+            return None, pos
+        cur = nxt["l"]
+    return None, pos
+
+
+ARG = "\x01"
+
+
+def _bytes_lit(dbg):
+    """b"..." debug rendering -> bytes"""
+    m = re.match(r'^b"(.*)"$', dbg or "", re.S)
+    if not m:
+        return None
+    body = m.group(1)
+    out = bytearray()
+    i = 0
+    esc = {"n": 10, "r": 13, "t": 9, "\\": 92, "0": 0, '"': 34, "'": 39}
+    while i < len(body):
+        ch = body[i]
+        if ch == "\\" and i + 1 < len(body):
+            nx = body[i + 1]
+            if nx == "x":
+                out.append(int(body[i + 2:i + 4], 16))
+                i += 4
+                continue
+            out.append(esc.get(nx, ord(nx)))
+            i += 2
+            continue
+        out.extend(ch.encode())
+        i += 1
+    return bytes(out)
+
+
+def fmt_template(raw):
+    """decode rustc's compact format-string encoding (length-prefixed literal pieces, 0xC0.. = an argument, 0 = end)
+    into a string with ARG placeholders; None if the bytes do not look like one"""
+    if raw is None:
+        return None
+    out, i = "", 0
+    while i < len(raw):
+        b = raw[i]
+        if b == 0:
+            return out
+        if b >= 0xC0:
+            out += ARG
+            i += 1
+            # argument descriptors may be followed by option bytes: skip bytes >= 0x80 that are not a length
+            continue
+        if b >= 0x80:
+            # two-byte length
+            if i + 1 >= len(raw):
+                return None
+            n = ((b & 0x7F) | (raw[i + 1] << 7))
+            i += 2
+        else:
+            n = b
+            i += 1
+        out += raw[i:i + n].decode("utf-8", "replace")
+        i += n
+    return out
+
+
+def text_emissions(body, into_ty=r"string::String|fmt::Formatter|dyn std::fmt::Write"):
+    """Literal text a function appends to a String / formatter, in reverse post-order of the CFG: a list of
+    (block, text, loop?) where text has ARG for every interpolated value.  Covers write!/writeln!/format! templates,
+    push_str("lit"), push('c') and join("sep")."""
+    order = rpo(body)
+    pos = {b: i for i, b in enumerate(order)}
+    ems = []
+    for b in order:
+        if body.is_cleanup(b):
+            continue
+        t = body.term(b)
+        if t["k"] != "call":
+            continue
+        txt = None
+        if fn_matches(t, r"fmt::Arguments::<'_>::from_str(_nonconst)?$", r"fmt::Arguments::<'a>::from_str(_nonconst)?$", r"fmt::Arguments.*::new_const"):
+            c = op_const(t["args"][0]) if t["args"] else None
+            txt = (c or {}).get("str")
+        elif fn_matches(t, r"fmt::Arguments::<'_>::new$", r"fmt::Arguments::<'a>::new$", r"fmt::Arguments.*::new::"):
+            for a in t["args"]:
+                l = op_local(a)
+                if l is None:
+                    continue
+                for o in origins(body, l, identity=[]):
+                    if o["kind"] == "const" and o.get("c") and str(o["c"].get("ty", "")).startswith("&[u8"):
+                        tt = fmt_template(_bytes_lit(o["c"].get("dbg")))
+                        if tt is not None and txt is None:
+                            txt = tt
+        elif fn_matches(t, r"string::String::push_str$") and len(t["args"]) > 1:
+            c = op_const(t["args"][1])
+            if c is None and op_local(t["args"][1]) is not None:
+                cs = [o for o in origins(body, op_local(t["args"][1])) ]
+                if len(cs) == 1 and cs[0]["kind"] == "const":
+                    c = cs[0]["c"]
+            txt = c.get("str") if c and c.get("str") is not None else ARG
+        elif fn_matches(t, r"string::String::push$") and len(t["args"]) > 1:
+            c = op_const(t["args"][1]) or {}
+            txt = chr(c["int"]) if isinstance(c.get("int"), int) else (c.get("char") if c.get("char") else ARG)
+        elif fn_matches(t, r"slice::<impl \[.*\]>::join$") and len(t["args"]) > 1:
+            c = op_const(t["args"][1])
+            if c is None and op_place(t["args"][1]) is not None:
+                cs = origins(body, op_place(t["args"][1])["l"])
+                c = cs[0]["c"] if len(cs) == 1 and cs[0]["kind"] == "const" else None
+            if c and c.get("str") is not None:
+                txt = "<join:%s>" % c["str"]
+        if txt is not None and fn_matches(t, r"fmt::Arguments"):
+            # only text that is written somewhere (not the message of a panic)
+            sinks = _consumers(body, t["dst"]["l"])
+            if not any(fn_matches(u, r"Write::write_fmt$", r"fmt::format$", r"Formatter::<'_>::write_fmt$", r"Formatter.*::write_fmt$", r"::write_fmt$") for u in sinks):
+                txt = None
+        if txt is not None:
+            ems.append((b, txt))
+    return ems
+
+
+def group_emissions(crate, fn_path):
+    """text emissions of a function with its helpers spliced in, followed by those of the closures it (or a helper) defines"""
+    b = crate.ibody(fn_path)
+    if b is None:
+        return []
+    ems = list(text_emissions(b))
+    group = crate.owned_by(fn_path)
+    for cb in crate.bodies:
+        if cb.kind == "Closure" and cb.path in group:
+            ems += [(None, t) for _, t in text_emissions(cb)]
+    return ems
+
+
+def _consumers(body, local, depth=0, seen=None):
+    """calls that take `local` (or a move/borrow of it) as an argument"""
+    seen = set() if seen is None else seen
+    if local in seen or depth > 6:
+        return []
+    seen.add(local)
+    out = []
+    for b in range(body.n):
+        if body.is_cleanup(b):
+            continue
+        for st in body.stmts(b):
+            if st["k"] == "assign" and not st["dst"]["p"]:
+                rv = st["rv"]
+                src = op_place(rv["op"]) if rv["k"] in ("use", "cast") else rv.get("pl") if rv["k"] in ("ref",) else None
+                if src is not None and src["l"] == local:
+                    out += _consumers(body, st["dst"]["l"], depth + 1, seen)
+        t = body.term(b)
+        if t["k"] == "call" and any((op_place(a) or {}).get("l") == local for a in t["args"]):
+            out.append(t)
+    return out
+
+
+def rpo(body, entry=0):
+    """reverse post-order in which the body of a loop precedes what follows the loop (exits are visited first by the DFS)"""
+    dist_cache = {}
+
+    def dist(s, b):
+        """length of the shortest path s -> b (inf if none): the successor that closes the shortest cycle is the loop body"""
+        if s not in dist_cache:
+            d = {s: 0}
+            dq = deque([s])
+            while dq:
+                x = dq.popleft()
+                for y in body.succ(x):
+                    if y not in d:
+                        d[y] = d[x] + 1
+                        dq.append(y)
+            dist_cache[s] = d
+        return dist_cache[s].get(b, 10 ** 9)
+
+    def succs(b):
+        ss = body.succ(b)
+        if len(ss) < 2:
+            return ss
+        return sorted(ss, key=lambda s: -dist(s, b))
+
+    seen, post = set(), []
+    stack = [(entry, iter(succs(entry)))]
+    seen.add(entry)
+    while stack:
+        b, it = stack[-1]
+        adv = False
+        for s in it:
+            if s not in seen:
+                seen.add(s)
+                stack.append((s, iter(succs(s))))
+                adv = True
+                break
+        if not adv:
+            post.append(b)
+            stack.pop()
+    return post[::-1]
 
 
 def lock_regions(body):
